@@ -1065,6 +1065,11 @@ func Cases(seed int64, thorough bool, small int) []Case {
 		}
 		cs = append(cs, Case{Name: "few-big", Seed: sd(), Layout: "explicit", Explicit: ex, DupOneIn: 2, DupSigOneIn: 3, DupTimes: 2, Order: orders[rng.Intn(4)], Meta: "std"})
 	}
+	// buckets beyond the writer's pre-allocated capacity whose neighbours (in prefix order) are populated too
+	for _, ord := range []string{"asc", "shuffle"} {
+		cs = append(cs, Case{Name: "big-with-neighbours-" + ord, Seed: sd(), Layout: "explicit", Order: ord, Meta: "std",
+			Explicit: []PP{{0x1233, 5}, {0x1234, 16010}, {0x1235, 7}, {0xfffe, 16003}, {0xffff, 4}, {0x0000, 16001}, {0x0001, 1}}})
+	}
 	cs = append(cs, Case{Name: "pow16", Seed: sd(), Layout: "explicit", Order: "roundrobin", Meta: "none",
 		Explicit: []PP{{uint16(rng.Intn(65536)), 65535}, {0xffff, 65536}, {uint16(rng.Intn(65535)), 65537}}})
 	ladder := 400
